@@ -107,12 +107,36 @@ class NamesSpec(Spec):
         return [(k, Fixed(v)) for k, v in NAMES.items()]
 
 
+class DescRange(Spec):
+    """a range with step -1 (descending configuration numbers: a malformed request)"""
+
+    def make(self, name, ctx, shape=None):
+        from pyvc.sym import SRange
+        start = SInt(z3.Int(fresh(name + ".start")))
+        if shape is not None:
+            return SRange(start, start - shape, -1, clen=shape)
+        n = SInt(z3.Int(fresh(name + ".n")))
+        ctx.assume(compare(">=", n, 0))
+        return SRange(start, start - n, -1, clen=n)
+
+    def shapes(self, bound):
+        return [2, 5, 6]
+
+    def native(self, value, ev):
+        return range(int(ev(value.start)), int(ev(value.stop)), -1)
+
+    def random(self, rng, shape=None):
+        n = shape if shape is not None else rng.randint(4, 7)
+        st = rng.randint(10, 20)
+        return range(st, st - n, -1)
+
+
 class SamplesSpec(Spec):
     def variants(self):
         return [("1", SamplesList(1)), ("2", SamplesList(2))]
 
 
-IDL_ELEM = {"range": lambda: IdlRange(0), "list": lambda: RawIntList(), "str": lambda: Fixed("bad")}
+IDL_ELEM = {"range": lambda: IdlRange(0), "list": lambda: RawIntList(), "str": lambda: Fixed("bad"), "range-desc": lambda: DescRange()}
 
 
 class IdlArg(Spec):
@@ -175,8 +199,12 @@ def _idl_items(idl):
 
 def _unsorted_or_dup(x):
     """list x is not strictly increasing"""
-    if is_range(x) or isinstance(x, str):
+    if isinstance(x, str):
         return False
+    if is_range(x):
+        # a range is increasing iff its step is positive (a range with fewer than two numbers is trivially sorted)
+        st = x.step
+        return And(st < 0, Len(x) >= 2) if not isinstance(st, int) or st < 0 else False
     return Exists(0, Len(x) - 1, lambda i: At(x, i + 1) <= At(x, i))
 
 
@@ -366,9 +394,13 @@ contract(
     gen=lambda rng, case: _init_gen(rng, case),
     note="validated construction path (no means=): every rejection listed in C04 and the well-formedness of what is accepted; "
          "chain names are enumerated (well-formed and malformed lists), everything else is symbolic",
-    not_decided=["ranges with a non-positive step given as idl (the range model assumes step >= 1)",
+    not_decided=["ranges with a step < -1 given as idl (descending ranges are represented by step -1)",
                  "np.ndarray given as idl element (handled like a list by the code; not modelled)"],
 )
+
+
+def ns_len(rng):
+    return rng.randint(5, 7)
 
 
 def _init_gen(rng, case):
@@ -382,6 +414,8 @@ def _init_gen(rng, case):
     idl = []
     for k in kinds:
         idl.append(IDL_ELEM[k]().random(rng) if k != "range" else G.idl(rng, "range", rng.randint(4, 7)))
+    if kinds == ["range-desc"] and rng.random() < 0.7:
+        idl = [range(idl[0].start, idl[0].start - ns_len(rng), -1)]
     samples = []
     for j in range(ns):
         ref = idl[j] if j < len(idl) and not isinstance(idl[j], str) else [0] * 5
